@@ -210,6 +210,11 @@ func ObserveBytes(name string, v []byte) {
 	Observed = append(Observed, fmt.Sprintf("%s=%q", name, string(v)))
 }
 
+// IsConcrete reports whether b is a known constant. Natively every byte is; inside the engine it
+// is false for bytes that depend on symbolic inputs. Harness parsers use it to look for
+// punctuation only among bytes that cannot be symbolic hex digits.
+func IsConcrete(b uint8) bool { return true }
+
 // Conformance reports whether this is a conformance run (pseudo-random concrete inputs).
 func Conformance() bool { return random }
 
